@@ -63,7 +63,20 @@ func moduleReach(p *Program, roots []*ssa.Function) map[*ssa.Function]bool {
 }
 
 func globalOf(addr ssa.Value) *ssa.Global {
+	return globalOfSeen(addr, map[ssa.Value]bool{}, 0)
+}
+
+// globalOfSeen: the package-level variable an address (or a slice / pointer value) leads into; cycles of phis
+// (a pointer advanced around a loop) and recursive helper functions are cut by the visited set and a depth bound.
+func globalOfSeen(addr ssa.Value, seen map[ssa.Value]bool, depth int) *ssa.Global {
+	if depth > 12 {
+		return nil
+	}
 	for i := 0; i < 10; i++ {
+		if addr == nil || seen[addr] {
+			return nil
+		}
+		seen[addr] = true
 		switch x := addr.(type) {
 		case *ssa.Global:
 			return x
@@ -83,7 +96,7 @@ func globalOf(addr ssa.Value) *ssa.Global {
 			addr = x.X
 		case *ssa.Phi:
 			for _, e := range x.Edges {
-				if g := globalOf(e); g != nil {
+				if g := globalOfSeen(e, seen, depth+1); g != nil {
 					return g
 				}
 			}
@@ -98,7 +111,7 @@ func globalOf(addr ssa.Value) *ssa.Global {
 				for _, rv := range ret.Results {
 					for _, o := range origins(rv) {
 						if o != nil && o != addr {
-							if g := globalOf(o); g != nil {
+							if g := globalOfSeen(o, seen, depth+1); g != nil {
 								return g
 							}
 						}
@@ -358,6 +371,17 @@ func checkC14(p *Program, r *Report) {
 	{
 		models, _ := p.Registry()
 		checkRunLengthIndependence(p, r, models, "R14.6", false)
+		// a kernel that grows a slice aliasing the shared arrays writes into the rows of other cells: what a cell
+		// returns then depends on the other cells of the run and on the schedule (R04.6 seen from C14)
+		sub := NewReport("C04", r.Tier)
+		checkNoAppendOnShared(p, sub, models)
+		r.Rule("R14.7", "a cell's result is a function of that cell alone: no kernel or helper appends to (a reslice of) a slice parameter or an Unroll() result — such a slice aliases the shared state/input storage with capacity reaching into the next cell's row, so the appended values land in, and are read back from, another cell's states (R04.6)")
+		for _, f := range sub.Findings {
+			r.Fail("R14.7", f.Key, f.Pos, f.Message)
+		}
+		if len(sub.Findings) == 0 {
+			r.OK("R14.7", fmt.Sprintf("%d kernel functions: no append on aliased buffers", sub.PerRule["R04.6"][1]))
+		}
 	}
 }
 
